@@ -123,7 +123,8 @@ def make_text(rng, styles, style, form, tagkey, eolname, hostile=None):
             # two terminators directly stacked after the value (e.g. JS inside HTML)
             ends = sorted({s["multi"][2] for s in styles.values() if s["multi"][2]})
             e1, e2 = rng.sample(ends, 2)
-            line, body = build_line(rng, "single", "", e1 + e2, tk, value, indent, trail, pad)
+            gap = rng.choice(["", "", " ", "  ", "\t"])  # nested comment syntaxes: `*/ -->`, `*/ #}` ...
+            line, body = build_line(rng, "single", "", rng.choice(["", " "]) + e1 + gap + e2, tk, value, indent, trail, pad)
         else:
             line, body = build_line(rng, form, opn, cls, tk, value, indent, trail, pad)
         lines.append(line)
@@ -263,7 +264,7 @@ def run_disk(case, ctx, res):
             data, exp, desc = made
             eol = EOLS[desc["eol"]].encode()
             pos = rng.choice(["start", "inside", "after", "after+snippet", "unparseable", "start+snippet", "after+snippet@boundary",
-                              "after+snippet@boundary", "inside-edge", "after-edge"])
+                              "after+snippet@boundary", "inside-edge", "after-edge", "start+long", "start+long"])
             desc = dict(desc, pos=pos)
             filler_line = b"x = 'filler filler filler filler filler filler filler'" + eol
             if pos == "start":
@@ -310,6 +311,8 @@ def run_disk(case, ctx, res):
                 # recompute so that the marker really starts `cut` bytes before the boundary
                 idx = blob.find(b"SPDX-SnippetBegin")
                 desc = dict(desc, marker_offset=idx)
+            elif pos == "start+long":
+                blob = data + filler_line * 120  # tags at the top of a file much longer than the window
             elif pos == "start+snippet":
                 blob = data + filler_line * 90 + b"# SPDX-SnippetBegin" + eol + b"# SPDX-SnippetEnd" + eol
             else:
